@@ -23,7 +23,7 @@
 (*         kHigh (24 characters, one with the high bit set)                *)
 (*  modes  c0 c2 c4 (valid, incl. both ends of the range)  c5 c100 c256    *)
 (*         c260 cNeg (-1)  cabc cEmpty (not numbers)   h0 h1 h2  h3 h256   *)
-(*         hNeg                                                            *)
+(*         hNeg   cHuge hHuge (a number that does not fit an int)          *)
 (*  empty  iEmptyArg oEmptyArg kEmpty: the option with "" as its value     *)
 (*  other  x unknown option   stray positional argument                    *)
 (***************************************************************************)
@@ -33,8 +33,8 @@ ModeTok == {"e", "d", "v", "V", "h", "le", "ld", "lv", "en", "dn", "vn"}
 ModeOf(t) == CASE t \in {"e", "le", "en"} -> "e" [] t \in {"d", "ld", "dn"} -> "d" [] t \in {"v", "lv", "vn"} -> "v"
                [] t = "V" -> "V" [] t = "h" -> "h"
 Tokens == ModeTok \cup {"n", "iF", "iE", "iMissing", "iLong", "iLen122", "iLen123", "iProc", "iNoArg", "iBadC", "iBadH", "iTam", "iEmpty", "oO", "oBad", "kK", "kW", "kShort", "kBadChar",
-                        "kNoPad", "kOnePad", "kLong", "kHigh", "kEmpty", "c0", "c2", "c4", "c5", "c100", "c256", "c260", "cNeg", "cabc", "cEmpty",
-                        "h0", "h1", "h2", "h3", "h256", "hNeg", "iEmptyArg", "oEmptyArg", "x", "stray"}
+                        "kNoPad", "kOnePad", "kLong", "kHigh", "kEmpty", "c0", "c2", "c4", "c5", "c100", "c256", "c260", "cNeg", "cHuge", "cabc", "cEmpty",
+                        "h0", "h1", "h2", "h3", "h256", "hNeg", "hHuge", "iEmptyArg", "oEmptyArg", "x", "stray"}
 S0 == [mode |-> "u", ct |-> FALSE, ht |-> FALSE, in |-> "none", out |-> "none", key |-> "none", quiet |-> FALSE, err |-> FALSE, may |-> FALSE]
 
 \* one token; the first offending token ends the parse (err)
@@ -50,7 +50,7 @@ Step(s, t) ==
   ELSE IF t = "iProc" THEN [s EXCEPT !.in = "R"]
   ELSE IF t \in {"iBadC", "iBadH", "iTam", "iEmpty"} THEN [s EXCEPT !.in = "X"]
   ELSE IF t \in {"iMissing", "iNoArg", "iEmptyArg", "oBad", "oEmptyArg", "kShort", "kBadChar", "kNoPad", "kOnePad", "kLong", "kHigh", "kEmpty",
-                  "c5", "c100", "c256", "c260", "cNeg", "h3", "h256", "hNeg", "x"}
+                  "c5", "c100", "c256", "c260", "cNeg", "cHuge", "h3", "h256", "hNeg", "hHuge", "x"}
        THEN [s EXCEPT !.err = TRUE]
   ELSE IF t = "oO" THEN [s EXCEPT !.out = "O"]
   ELSE IF t = "kK" THEN [s EXCEPT !.key = "K"]
